@@ -76,6 +76,9 @@ def alphabet():
           ("rename-id", "rename Id_2 to Id_5"),
           ("rename-two", "rename Me_2 to Me_6, At_1 to At_3"),
           ("rename-swap", "rename Me_1 to Me_2, Me_2 to Me_1"),
+          ("rename-newid", "rename Id_3 to Id_7"),
+          ("rename-newattr", "rename At_2 to At_7"),
+          ("sub-new", "sub Id_3 = 10"),
           ("sub-1", "sub Id_1 = 1"),
           ("sub-2", 'sub Id_2 = "A"'),
           ("sub-12", 'sub Id_1 = 1, Id_2 = "A"')]
@@ -88,7 +91,9 @@ LABELS = [l for l, _ in ALPHABET]
 PARSED = {l: R.parse_clause(t) for l, t in ALPHABET}
 SUB_ALPHABET = ["filter-null", "filter-new", "calc-add", "calc-over", "calc-new", "keep-Me_1", "drop-Me_2", "rename-one",
                 "rename-swap", "sub-1"]
-UNPACKED_TRIGGERS = {"sub-1", "sub-2", "sub-12", "calc-id"}
+# components created with a role by an earlier clause, then kept / dropped around and used again
+CREATED_ALPHABET = ["calc-id", "calc-attr", "keep-Me_1", "drop-Me_2", "filter-some", "rename-newid", "rename-newattr", "sub-new"]
+UNPACKED_TRIGGERS = {"sub-1", "sub-2", "sub-12", "calc-id", "sub-new"}
 
 
 def chains(labels, lmax, comps=None, prefix=()):
@@ -542,14 +547,17 @@ def plan(tier, seed):
     """-> list of work items (every item is one batch of chains on one data set)"""
     if tier == "quick":
         packed = list(chains(LABELS, 2)) + [c for c in chains(SUB_ALPHABET, 3) if len(c) == 3]
+        packed += [c for c in chains(CREATED_ALPHABET, 3) if len(c) == 3]
         reduced = []
     else:
         full3 = list(chains(LABELS, 3))
-        packed = full3 + [c for c in chains(SUB_ALPHABET, 4) if len(c) == 4]
+        packed = full3 + [c for c in chains(SUB_ALPHABET, 4) if len(c) == 4] + [c for c in chains(CREATED_ALPHABET, 4) if len(c) == 4]
         reduced = [c for c in chains(LABELS, 4) if len(c) == 4]
     packed = list(dict.fromkeys(packed))
     items = []
     for subject in SUBJECTS:
+        if subject == "joindrop" and tier == "quick":
+            packed = [c for c in packed if len(c) <= 2]
         for b in harness.chunks(harness.seeded_order(packed, seed), BATCH):
             items.append({"subject": subject, "mode": "packed", "chains": b, "rels": ALL_RELATIONS, "seed": seed})
         unp = [c for c in packed if UNPACKED_TRIGGERS & set(c)]
@@ -573,8 +581,8 @@ def predicate_outcomes():
 class Check:
     ID = "C02"
     LEVEL = "exploration"
-    RULE = ("case = (subject, clause chain, input relation). Chains: every well-typed sequence over a 34-clause alphabet "
-            "(filter x7, calc x8, keep x6, drop x6, rename x4, sub x3), quick L<=2 + L=3 over a 10-clause sub-alphabet, "
+    RULE = ("case = (subject, clause chain, input relation). Chains: every well-typed sequence over a 37-clause alphabet "
+            "(filter x7, calc x8, keep x6, drop x6, rename x6, sub x4), quick L<=2 + L=3 over a 10-clause sub-alphabet and over the 8-clause created-component alphabet, "
             "thorough L<=3 + L=4 over the sub-alphabet (+ L=4 over the full alphabet on the input subject over 16 presence "
             "patterns); subjects: input dataset, result of another statement, result of a 2-way inner_join, result of a join whose body drops one of two same-named measures; inputs: all 625 "
             "relations over a 2x2 identifier grid with Me_1 in {-1.5, 0, 2.5, null} packed through C_id, chains with sub / "
